@@ -201,40 +201,40 @@ theorem required_eq (ps : List FParam) : required ps = Spec.required ps := by
 
 /-! ### the return clause -/
 
-/-- exact unless a coroutine function meets a top type (the open region `asyncVsTop`), where the code answers False -/
+/-- exact for plain and for coroutine functions (since the repair of the region `asyncVsTop` a coroutine function also conforms to a
+    top return type: the generated fact `coroOtherTopTest`) -/
 theorem retCheck_exact {env : Env} (wf : env.WF) (coro : Bool) (ret : Ann) (eret : TA) :
-    retCheck env coro ret eret = .ok (if coro && isTop env eret then false else retConforms env coro ret eret) := by
+    retCheck env coro ret eret = .ok (retConforms env coro ret eret) := by
   unfold retCheck
   cases coro with
   | false => simp [coroTest, syncReturnChecked, retConforms, isSubtype_exact wf ret eret]
   | true =>
-    simp only [coroTest, Bool.and_self, Bool.not_true, Bool.false_eq_true, if_false, Bool.true_and, retConforms, if_true]
+    simp only [coroTest, Bool.and_self, Bool.not_true, Bool.false_eq_true, if_false, retConforms, if_true]
     cases eret with
-    | cls d => cases hd : isTop env (.cls d) <;> simp [coroOtherResult, hd]
-    | any => simp [coroOtherResult, isTop]
-    | union q ds => simp [coroOtherResult, isTop]
+    | cls d => simp [coroOther, coroOtherTopTest, clsOf, isTop]
+    | any => simp [coroOther, coroOtherTopTest, clsOf, isTop]
+    | union q ds => simp [coroOther, coroOtherTopTest, isTop]
     | gen1 g t =>
       by_cases hg : g = env.awaitableGen
       · simp [hg, pickArg, awaitableArgIndex, coroReturnChecked, isTop, isSubtype_exact wf ret t]
-      · simp [hg, coroOtherResult, isTop]
+      · have h1 : (env.origin1 g == env.object) = false := by simpa using wf.origin1NotObject g
+        simp [hg, coroOther, coroOtherTopTest, clsOf, h1, isTop]
     | gen3 g t =>
       by_cases hg : g = env.coroutineGen
       · simp [hg, pickArg, coroutineArgIndex, coroReturnChecked, isTop, isSubtype_exact wf ret t]
-      · simp [hg, coroOtherResult, isTop]
+      · have h3 : (env.origin3 g == env.object) = false := by simpa using wf.origin3NotObject g
+        simp [hg, coroOther, coroOtherTopTest, clsOf, h3, isTop]
 
 theorem retCheck_sound {env : Env} (wf : env.WF) (coro : Bool) (ret : Ann) (eret : TA)
     (h : retCheck env coro ret eret = .ok true) : retConforms env coro ret eret = true := by
   rw [retCheck_exact wf] at h
-  cases hc : (coro && isTop env eret) <;> simp [hc] at h
-  exact h
+  simpa using h
 
+/-- the region hypothesis is kept for the callers; no region is left (`retRegions` is empty once `coroOtherTopTest` holds) -/
 theorem retCheck_complete {env : Env} (wf : env.WF) (coro : Bool) (ret : Ann) (eret : TA)
-    (hg : retRegions env coro eret = []) (h : retConforms env coro ret eret = true) :
+    (_hg : retRegions env coro eret = []) (h : retConforms env coro ret eret = true) :
     retCheck env coro ret eret = .ok true := by
-  rw [retCheck_exact wf]
-  cases hc : (coro && isTop env eret)
-  · simp [h]
-  · simp [retRegions, hc] at hg
+  rw [retCheck_exact wf, h]
 
 /-! ### `_instancecheck_callable` -/
 
@@ -548,8 +548,8 @@ theorem retCheck_respell (env : Env) (coro : Bool) (ret : Ann) {t t' : TA} (h : 
     | cls c => rfl
     | any => rfl
     | union p q cs ds h => rfl
-    | gen1 g h' => simp only [pickArg, awaitableArgIndex, List.getElem?_cons_zero, isSubtype_respell env ret h']
-    | gen3 g h' => simp [pickArg, coroutineArgIndex, isSubtype_respell env ret h']
+    | gen1 g h' => simp only [pickArg, awaitableArgIndex, List.getElem?_cons_zero, isSubtype_respell env ret h', coroOther, clsOf]
+    | gen3 g h' => simp [pickArg, coroutineArgIndex, isSubtype_respell env ret h', coroOther, clsOf]
 
 /-- two spellings of the type arguments of a `Callable[...]` -/
 structure RespellExp (e e' : Exp) : Prop where
